@@ -2,15 +2,15 @@
 C16 — every frame the WebSocket client writes is well-formed and correctly masked.
 
 Frame level: the model of `AcquireFrame … SetPayload … prepareWrite/MaskPayload … Encode` (`Model/WsEncode.lean`,
-`Model/WsStream.lean: buildFrame`) for an ARBITRARY pooled slice; the wire bytes are compared with the reference
+`Model/WsWritePath.lean: buildFrame`) for an ARBITRARY pooled slice; the wire bytes are compared with the reference
 encoder of `Spec/WsFrame.lean` and the well-formedness predicate `FrameOk` of the wire monitor (`Spec/WsWire.lean`).
-Stream level: `Model/WsStream.lean` (pending queue, blocking and asynchronous flush, partial writes).
+Stream level: `Model/WsWritePath.lean` (pending queue, blocking and asynchronous flush, partial writes).
 -/
 import Sonic.Lemmas.WsEncodeModel
-import Sonic.Lemmas.WsStreamInv
+import Sonic.Lemmas.WsWritePathInv
 
 namespace Sonic.Props.C16
-open Sonic.Model.WsBuf Sonic.Model.WsFrame Sonic.Model.WsEncode Sonic.Model.WsStream Sonic.Spec.WsFrame
+open Sonic.Model.WsBuf Sonic.Model.WsFrame Sonic.Model.WsEncode Sonic.Model.WsWritePath Sonic.Spec.WsFrame
 open Sonic.Spec.WsWire (Req FrameOk xorKey)
 
 /-- What `AcquireFrame` may hand out: a slice of at least 2 bytes (the header) inside a backing array of at least
@@ -187,9 +187,9 @@ theorem C16_mask_involution (key b : List UInt8) : maskBytes key (maskBytes key 
 written, nothing is queued, the stream is unchanged. -/
 theorem C16_refuse_above_max (s : WS) (id : Nat) (async : Bool) (opcode : UInt8) (payload : List UInt8) (keys : List (List UInt8))
     (h : (payload.length : Int) > s.max) :
-    ∃ o, Model.WsStream.step s id (.write async opcode payload keys) = .ok (some (s, o)) ∧ o.wire = [] ∧ o.segs = [] ∧
+    ∃ o, Model.WsWritePath.step s id (.write async opcode payload keys) = .ok (some (s, o)) ∧ o.wire = [] ∧ o.segs = [] ∧
       (if async then o.cbs = [(id, Err.tooBig)] ∧ o.res = none else o.res = some Err.tooBig ∧ o.cbs = []) := by
-  simp only [Model.WsStream.step]
+  simp only [Model.WsWritePath.step]
   rw [if_pos h]
   cases async <;> exact ⟨_, rfl, rfl, rfl, by simp⟩
 
@@ -270,27 +270,27 @@ theorem histOk_snoc {s s' : WS} {fr : List UInt8} {r : Req} {f : Frame} (h : His
 /-- **One operation** keeps the stream invariant and the well-formedness of everything queued; a blocking call that
 returns `nil` leaves nothing queued and nothing in flight. -/
 theorem step_ok {s : WS} (id : Nat) (op : WOp) (hop : OpOk op) (hI : s.Inv) (hH : HistOk s) {s' : WS} {o : Out}
-    (h : Model.WsStream.step s id op = .ok (some (s', o))) :
+    (h : Model.WsWritePath.step s id op = .ok (some (s', o))) :
     s'.Inv ∧ HistOk s' ∧ s'.max = s.max ∧ (o.res = some Err.nil → s'.Quiescent) := by
   have hsame : ∀ {t : WS}, t.hist = s.hist → HistOk t := fun ht => by
     obtain ⟨rs, h1, h2⟩ := hH; exact ⟨rs, by rw [ht]; exact h1, h2⟩
   cases op with
   | plan l =>
-    simp only [Model.WsStream.step, epure, Except.ok.injEq, Option.some.injEq, Prod.mk.injEq] at h
+    simp only [Model.WsWritePath.step, epure, Except.ok.injEq, Option.some.injEq, Prod.mk.injEq] at h
     obtain ⟨rfl, rfl⟩ := h
     exact ⟨hI, hsame rfl, rfl, fun hc => by cases hc⟩
   | defer b =>
-    simp only [Model.WsStream.step, epure, Except.ok.injEq, Option.some.injEq, Prod.mk.injEq] at h
+    simp only [Model.WsWritePath.step, epure, Except.ok.injEq, Option.some.injEq, Prod.mk.injEq] at h
     obtain ⟨rfl, rfl⟩ := h
     exact ⟨hI, hsame rfl, rfl, fun hc => by cases hc⟩
   | pump =>
-    simp only [Model.WsStream.step, epure, Except.ok.injEq, Option.some.injEq] at h
+    simp only [Model.WsWritePath.step, epure, Except.ok.injEq, Option.some.injEq] at h
     have := asyncRun_inv (2 * s.pending.length + 4) s {} false hI (fun hc => by cases hc)
     have hr := asyncRun_res (2 * s.pending.length + 4) s {} false
     rw [h] at this hr
     exact ⟨this.1, hsame this.2.1, this.2.2.1, fun hc => by rw [hr] at hc; cases hc⟩
   | flush async =>
-    simp only [Model.WsStream.step] at h
+    simp only [Model.WsWritePath.step] at h
     cases async with
     | true =>
       simp only [if_true, epure, Except.ok.injEq, Option.some.injEq] at h
@@ -318,7 +318,7 @@ theorem step_ok {s : WS} (id : Nat) (op : WOp) (hop : OpOk op) (hI : s.Inv) (hH 
           obtain ⟨_, _, _, a4, _, _, a7, _⟩ := flushSync_spec hfs
           exact ⟨hi2, hsame a4, a7, fun _ => hq2⟩
   | write async oc p keys =>
-    simp only [Model.WsStream.step] at h
+    simp only [Model.WsWritePath.step] at h
     split at h
     · simp only [epure, Except.ok.injEq, Option.some.injEq, Prod.mk.injEq] at h
       obtain ⟨rfl, rfl⟩ := h
@@ -339,7 +339,7 @@ theorem step_ok {s : WS} (id : Nat) (op : WOp) (hop : OpOk op) (hI : s.Inv) (hH 
         obtain ⟨rfl, rfl⟩ := h
         exact ⟨hI, hsame rfl, rfl, fun hc => by cases async <;> simp at hc⟩
   | frame async oc fin p flen keys =>
-    simp only [Model.WsStream.step] at h
+    simp only [Model.WsWritePath.step] at h
     obtain ⟨hlen, h6⟩ := hop
     split at h
     · cases hb : buildChecked (pooledFrame flen) fin oc p keys with
@@ -358,7 +358,7 @@ theorem step_ok {s : WS} (id : Nat) (op : WOp) (hop : OpOk op) (hI : s.Inv) (hH 
       obtain ⟨rfl, rfl⟩ := h
       exact ⟨hI, hsame rfl, rfl, fun hc => by cases async <;> simp at hc⟩
   | close async code reason keys =>
-    simp only [Model.WsStream.step] at h
+    simp only [Model.WsWritePath.step] at h
     split at h
     · cases hb : buildChecked PFrame.new true 8 (some (beBytes 2 (code % 65536) ++ reason)) keys with
       | error e => rw [hb] at h; cases h
@@ -398,7 +398,7 @@ theorem C16_order_complete : ∀ (ops : List WOp) (s : WS) (id : Nat) (s' : WS),
   | cons op rest ih =>
     intro s id s' hops hI hH h
     unfold runOps at h
-    cases hs : Model.WsStream.step s id op with
+    cases hs : Model.WsWritePath.step s id op with
     | error e => rw [hs] at h; cases h
     | ok r =>
       rw [hs] at h
